@@ -78,6 +78,11 @@ CLAIMED["C19"] = ("frame analysis (written/read sets), finite decision of the co
     "Complete decision of the frame clause of replace_dictionary/dictionary and of the constructor gate (Ok iff length equality; private fields; tool uses new); "
     "structural decision of the dump/replace codec agreement (same flatten type, separator, i32) and tool order; every Result propagated. "
     "csv quoting and byte identity are not decided.", "DESIGN.md §4 C19")
+CLAIMED["C14"] = ("writer/reader sequence agreement derived by abstract interpretation of every hand-written Encode/Decode pair; derive-symmetry table; compile-fail witness",
+    "Decides the structural necessary conditions of the predictor codec: per path the ordered wire-type and field sequences of encode and decode agree for all seven "
+    "hand-written pairs (incl. Option/nested payload nesting and per-element loop sequences), automata use serialize/deserialize_unchecked of one type on the decoded "
+    "bytes, remainder = data[consumed..], fixed vectors go through trim/From, single bincode configuration, deserialisation is unsafe-only. "
+    "Behavioural equality is not decided.", "DESIGN.md §4 C14")
 NOT_YET = {}
 
 def main():
